@@ -36,14 +36,17 @@ func init() { register("C11", "other", checkC11) }
 //     each case of (operand zero / non-zero), (a < b, a = b, a > b), with the
 //     ring form deciding "a - b is zero": Bool, Not, BoolCond, Eq, Leu.
 //
-// Decided relative to an inner gadget kept as a node (whose own meaning is not
-// decided): Les on Lts, SignedMul on SignExtend, IntNegative and Abs on the sign
-// mask. NOT decided: SignedDiv, SignedMod, SignExtend, RshA, Lts, MaskBits (their meaning depends on sign bits and masks that
-// vary with the width), and the meaning of the IR operators themselves (C10).
+// Decided on top of an inner gadget kept as a node: Les on Lts, IntNegative and
+// Abs on the sign mask - Lts (checkLts: eight cases of top bits and unsigned
+// order) and the sign mask (C11.signmask: all 255 widths) are decided
+// themselves - and SignedMul on SignExtend, which is not. NOT decided:
+// SignedDiv, SignedMod, SignExtend, RshA, MaskBits (their meaning depends on
+// sign bits and masks that vary with the width), and the meaning of the IR
+// operators themselves (C10).
 func checkC11(c *Ctx) {
 	c.Rule("C11.bitwise", "BitNot, BitAnd, BitOr, BitXor, Ones build a term of Nand nodes, all at the gadget's width, over their operands and the constant zero; its truth table per bit is NOT / AND / OR / XOR / constant one; IntNegative, relative to the sign mask (one in the top position), is the operand's top bit and zero elsewhere")
 	c.Rule("C11.ring", "Negate, Sub, NewWidthGadget, Mod build a term whose polynomial normal form over Z/2^(8w) (Add, Mul, full-width complement = -x-1, quotient as an atom) is -a / a-b / a / a - q(a,b)*b, and Mod with divisor 0 (quotient all ones) is a")
-	c.Rule("C11.cases", "Bool, Not, BoolCond, Eq, Leu build selections whose conditions, decided under every case of (operand zero / non-zero) resp. (a<b, a=b, a>b), select the documented result; Les likewise under the signed order, relative to Lts (kept as a node, its own meaning not decided); Abs, relative to the sign mask, is the operand where its top bit is clear and its negation otherwise")
+	c.Rule("C11.cases", "Bool, Not, BoolCond, Eq, Leu build selections whose conditions, decided under every case of (operand zero / non-zero) resp. (a<b, a=b, a>b), select the documented result; Les likewise under the signed order, on top of Lts (kept as a node); Lts itself under the eight cases of (top bit of a, top bit of b, unsigned order), with negation reversing the order of two operands whose top bits are set; Abs, relative to the sign mask, is the operand where its top bit is clear and its negation otherwise")
 
 	tpkg := ModulePath + "/pkg/expr/exprtools"
 	ep := c.Prog.SSAPkg[ExprPkg]
@@ -222,6 +225,17 @@ func checkC11(c *Ctx) {
 		}
 		c.Oblige("C11.cases", "pkg/expr/exprtools."+g.name, c.Prog.FuncPos(f), bad == "", bad)
 	}
+	// ---- Lts: the signed comparison itself, by cases of the two top bits and
+	// the unsigned order (extracted without treating Lts as a node)
+	{
+		saved := x.opaque
+		x.opaque = map[*ssa.Function]bool{}
+		if t, f := term("Lts"); t != nil {
+			n++
+			checkLts(c, t, f)
+		}
+		x.opaque = saved
+	}
 	// ---- SignedMul, relative to SignExtend and Mul: the product, at twice the
 	// width, of the operands each sign-extended from its own top bit to that width
 	c.Rule("C11.smul", "SignedMul builds Mul(sext(a, bit 8*width(a)-1), sext(b, bit 8*width(b)-1)) with both extensions and the product at width 2w (relative to SignExtend, kept as a node, and to Mul)")
@@ -321,7 +335,7 @@ func checkC11(c *Ctx) {
 	} else {
 		c.Undecide("C11.signmask: %s.signBitMask not found", tpkg)
 	}
-	c.RequireCount("C11 gadgets decided", n, 19)
+	c.RequireCount("C11 gadgets decided", n, 20)
 }
 
 func ruleOfGadget(name string) string {
@@ -951,4 +965,152 @@ func decideLess(a, b *gt, U string, f gfacts) (bool, string) {
 		}
 	}
 	return false, fmt.Sprintf("the comparison %s < %s cannot be decided from the case alone", pa, pb)
+}
+
+// ---------------------------------------------------------------------------
+// the signed comparison
+
+// sval is what a sub-term of Lts stands for under one case of (top bit of a,
+// top bit of b, unsigned order of a and b): an operand, the negation of an
+// operand whose top bit is set, zero, the sign mask, or a selected leaf.
+type sval struct {
+	kind string // "var", "neg", "zero", "mask", "leaf"
+	name string
+}
+
+type scase struct {
+	msb   map[string]int // p0, p1
+	order string         // unsigned order of p0 and p1
+}
+
+// signedEval evaluates a term of the signed comparison under a case.
+func (t *gt) signedEval(U string, cs scase) (sval, string) {
+	switch t.kind {
+	case "var":
+		if t.name == "p0" || t.name == "p1" {
+			return sval{"var", t.name}, ""
+		}
+		return sval{"leaf", t.name}, ""
+	case "const":
+		if t.k == 0 {
+			return sval{"zero", ""}, ""
+		}
+		return sval{}, fmt.Sprintf("the constant %d takes part in the comparison", t.k)
+	case "topmask":
+		if t.w != U {
+			return sval{}, "a sign mask of another width"
+		}
+		return sval{"mask", ""}, ""
+	case "bin":
+		if t.w != U {
+			return sval{}, "a node of width " + t.w + " in a gadget of width " + U
+		}
+		// the negation of an operand
+		if p, err := t.poly(U, nil); err == "" {
+			for _, v := range []string{"p0", "p1"} {
+				if len(p) == 1 && p[v] != nil && p[v].Cmp(big.NewInt(-1)) == 0 {
+					if cs.msb[v] != 1 {
+						return sval{}, "the negation of an operand whose top bit is clear takes part in a comparison"
+					}
+					return sval{"neg", v}, ""
+				}
+			}
+		}
+		// a bitwise term over the operands and the sign mask: zero outside the top
+		// position whatever the operands' bits are, the top position from the case
+		for _, a := range []bool{false, true} {
+			for _, b := range []bool{false, true} {
+				bit, err := t.perBit(map[string]bool{"p0": a, "p1": b}, U, false)
+				if err != "" {
+					return sval{}, err
+				}
+				if bit {
+					return sval{}, "a bitwise term that is not confined to the sign bit takes part in the comparison"
+				}
+			}
+		}
+		top, err := t.perBit(map[string]bool{"p0": cs.msb["p0"] == 1, "p1": cs.msb["p1"] == 1}, U, true)
+		if err != "" {
+			return sval{}, err
+		}
+		if top {
+			return sval{"mask", ""}, ""
+		}
+		return sval{"zero", ""}, ""
+	case "less":
+		if t.w != U {
+			return sval{}, "a comparison at width " + t.w + " in a gadget comparing at width " + U
+		}
+		a, e1 := t.a[0].signedEval(U, cs)
+		b, e2 := t.a[1].signedEval(U, cs)
+		if e := firstErr(e1, e2); e != "" {
+			return sval{}, e
+		}
+		yes, err := signedLess(a, b, cs)
+		if err != "" {
+			return sval{}, err
+		}
+		if yes {
+			return t.a[2].signedEval(U, cs)
+		}
+		return t.a[3].signedEval(U, cs)
+	}
+	return sval{}, "the term cannot be followed"
+}
+
+// signedLess: a <u b for two abstract values under the case.
+func signedLess(a, b sval, cs scase) (bool, string) {
+	ord := func(x, y string) string { // unsigned order of operand x and operand y
+		switch {
+		case x == y:
+			return "="
+		case x == "p0":
+			return cs.order
+		}
+		return map[string]string{"<": ">", "=": "=", ">": "<"}[cs.order]
+	}
+	switch {
+	case a.kind == "zero" && b.kind == "zero", a.kind == "mask" && b.kind == "mask":
+		return false, ""
+	case a.kind == "zero" && b.kind == "mask":
+		return true, ""
+	case a.kind == "mask" && b.kind == "zero":
+		return false, ""
+	case a.kind == "var" && b.kind == "mask":
+		return cs.msb[a.name] == 0, "" // below the sign mask exactly when the top bit is clear
+	case a.kind == "var" && b.kind == "var":
+		return ord(a.name, b.name) == "<", ""
+	case a.kind == "neg" && b.kind == "neg":
+		// both operands have their top bit set (so neither is zero): negation reverses the order
+		return ord(b.name, a.name) == "<", ""
+	}
+	return false, fmt.Sprintf("the comparison of %s %s with %s %s cannot be decided from the case", a.kind, a.name, b.kind, b.name)
+}
+
+// checkLts: the signed comparison under every consistent case.
+func checkLts(c *Ctx, t *gt, f *ssa.Function) {
+	bad := ""
+	for _, cs := range []struct {
+		m0, m1 int
+		order  string
+		want   string
+	}{
+		{0, 0, "<", "p2"}, {0, 0, "=", "p3"}, {0, 0, ">", "p3"},
+		{1, 1, "<", "p2"}, {1, 1, "=", "p3"}, {1, 1, ">", "p3"},
+		{0, 1, "<", "p3"}, // a >= 0 > b
+		{1, 0, ">", "p2"}, // a < 0 <= b
+	} {
+		got, err := t.signedEval("w", scase{msb: map[string]int{"p0": cs.m0, "p1": cs.m1}, order: cs.order})
+		at := fmt.Sprintf("where the top bits of a and b are %d and %d and a %s b as unsigned numbers", cs.m0, cs.m1, cs.order)
+		switch {
+		case err != "":
+			bad = at + ": " + err
+		case got.kind != "leaf" || got.name != cs.want:
+			bad = fmt.Sprintf("%s the gadget yields %s %s, the signed comparison gives %s", at, got.kind, got.name, leafName(cs.want))
+		}
+		if bad != "" {
+			break
+		}
+	}
+	c.Oblige("C11.cases", "pkg/expr/exprtools.Lts", c.Prog.FuncPos(f), bad == "", bad)
 }
